@@ -1,3 +1,4 @@
+import JominiModel.Proofs.BinDeCutDoc
 import JominiModel.Proofs.BinReader
 import JominiModel.Proofs.TextFault
 import JominiModel.Proofs.TextDeCut
